@@ -57,8 +57,12 @@ def run(rep):
              max_steps=5, mode="sim", num=500 if q else 6000, check=False),
     ]
     crop.drive(rep, runs, claims=lambda tag: tag in CLAIMS)
+    crop.parallel_grow_cases(rep, 2 if q else 6, partial=True)
     rep.exhaustive = not q
 
 
 def replay(rep, saved):
-    crop.replay_saved(rep, saved)
+    if saved.get("kind") == "parallel_grow":
+        crop.parallel_grow_cases(rep, 2, partial=True)
+        return
+    crop.replay_saved(rep, saved, claims=lambda tag: tag in CLAIMS)
